@@ -10,8 +10,16 @@ PKEYS = ["prio", "k", "type", "p*", ""]
 PVALS = ["low", "high", "1", "", "lo*", "^low", "medium"]
 LINKS = [["http://bug/1", "#1"], ["http://bug/2", None], ["u", ""], ["#2", "name"], ["http://bug/12", "#12"], ["x", None]]
 STATUSES = ["passed", "failed", "skipped", "disabled", None, "passed", "failed"]
-TEXTS = ["step 1", "value is 42", "got 4_2", "nothing", "", "ERROR 500", "a 1 b", "x", "42"]
-GREPS = ["42", "4_2", "1", " 1", "500", "9", "1 b", "_"]     # regex-inert, caseless: found iff substring
+# every source of text searched by --grep carries its own digit, so that a one-digit pattern tells the sources apart
+STEP_DESCS = ["step 3", "s33", "nothing", ""]
+LOG_MSGS = ["value is 4", "44 items", "nothing", ""]
+CHECK_DESCS = ["check 5", "is 55", "x"]
+CHECK_DETAILS = [None, "", "got 7", "7_7"]
+ATT_FILES = ["f6.png", "attachments/66_x", "file.txt"]
+ATT_DESCS = ["shot 8", "x"]
+URLS = ["http://h/9", "u"]
+URL_DESCS = ["link 0", "x"]
+GREPS = ["3", "4", "5", "6", "7", "8", "9", "0", "33", "7_7", " 5", "1", "44 "]     # regex-inert, caseless: found iff substring
 GLOB_ALPHA = "abc-!][*?^\\&~|d\n.x1"
 
 
@@ -237,17 +245,17 @@ def gen_steps(rng):
     steps = []
     for _ in range(rng.choice([0, 1, 1, 2])):
         logs = []
-        for _ in range(rng.choice([0, 1, 2, 3])):
+        for _ in range(rng.choice([0, 1, 1, 2])):
             k = rng.choice(["log", "check", "att", "url"])
             if k == "log":
-                logs.append(["log", rng.choice(["info", "error", "debug"]), rng.choice(TEXTS)])
+                logs.append(["log", rng.choice(["info", "error", "debug"]), rng.choice(LOG_MSGS)])
             elif k == "check":
-                logs.append(["check", rng.choice(TEXTS), rng.random() < 0.7, rng.choice([None, "", rng.choice(TEXTS)])])
+                logs.append(["check", rng.choice(CHECK_DESCS), rng.random() < 0.7, rng.choice(CHECK_DETAILS)])
             elif k == "att":
-                logs.append(["att", rng.choice(TEXTS), rng.choice(["file.txt", "f42.png", "attachments/1_x"])])
+                logs.append(["att", rng.choice(ATT_DESCS), rng.choice(ATT_FILES)])
             else:
-                logs.append(["url", rng.choice(TEXTS), rng.choice(["http://h/42", "http://h/x", "u"])])
-        steps.append({"desc": rng.choice(TEXTS), "logs": logs})
+                logs.append(["url", rng.choice(URL_DESCS), rng.choice(URLS)])
+        steps.append({"desc": rng.choice(STEP_DESCS), "logs": logs})
     return steps
 
 
